@@ -1,0 +1,192 @@
+//go:build verif
+
+// Contracts for package ast, checked by /verif/govc. Comment-only: with the build tag off the compiler never
+// sees this file; with it on, the file contains nothing but the package clause.
+
+package ast
+
+// =========================================================================================================
+// Ghost vocabulary of an engine run. Ghost state exists only in contracts; it is updated only at function
+// entry/exit (ghost_entry / ghost_exit), never inside executable code.
+// =========================================================================================================
+//@ ghost var $stamp int                  // cycle stamp: +1 when a run starts and at every BeginCycle notification (never reset)
+//@ ghost var $runBegin int               // BeginCycle notifications delivered in the current run
+//@ ghost var $runExec int                // RuleEntry.Execute calls in the current run
+//@ ghost var $evalStamp array[Ref]int    // per rule entry: $stamp at its last Evaluate
+//@ ghost var $evalCnt array[Ref]int      // how often it was evaluated under that stamp
+//@ ghost var $evalCand array[Ref]bool    // what that Evaluate returned
+//@ ghost var $notifStamp array[Ref]int   // $stamp at the last EvaluateRuleEntry notification for the entry
+//@ ghost var $execNotifStamp int         // $stamp at the last ExecuteRuleEntry notification
+//@ ghost var $execNotifEntry *RuleEntry
+//@ ghost var $execStamp int              // $stamp at the last RuleEntry.Execute
+//@ ghost var $cancelled bool             // T-CTX: the context is done (monotone; may flip at any time)
+//@ ghost var $ctxErrSeen bool            // some ctx.Err() of this run returned non-nil
+//@ ghost var $sinceNilCheck int          // events since the last ctx.Err() that returned nil
+//@ ghost var $actionFailed bool          // the last RuleEntry.Execute returned an error
+//@ ghost var $evalFailed bool            // some RuleEntry.Evaluate of this run returned an error
+//@ ghost var $complete array[Ref]bool    // per data context: Complete() has been called
+//@ ghost var $addFailed bool             // the DEFUNC registration failed
+//@ ghost var $sinceExec int              // engine events since the last RuleEntry.Execute returned
+//@ ghost var $evN int                    // listener event log (one entry per listener callback)
+//@ ghost var $evL array[int]Ref          //   which listener
+//@ ghost var $evKind array[int]int       //   1 BeginCycle, 2 EvaluateRuleEntry, 3 ExecuteRuleEntry
+//@ ghost var $evCycle array[int]int
+//@ ghost var $evEntry array[int]Ref
+//@ ghost var $evCand array[int]bool
+
+// memo fields of the working memory / AST (what condition evaluation may write)
+//@ modset memo = Expression.Evaluated, Expression.Value, ExpressionAtom.Evaluated, ExpressionAtom.Value, ExpressionAtom.ValueNode, Variable.Value, Variable.ValueNode, FunctionCall.Value, ArrayMapSelector.Value, Constant.DataContext, Constant.WorkingMemory
+//@ modset ctxghost = $cancelled, $ctxErrSeen, $sinceNilCheck
+//@ ghost var $loc array[int]RV           // fact store addressed through reflect (T-REFLECT): location id -> value
+// what a rule action may write: memo fields, facts, the Retracted flags (Retract), completion, data-context bookkeeping.
+// T-USER: user methods called from actions do not reach into other engine state.
+//@ modset actions = @memo, $loc, RuleEntry.Retracted, $complete, DataContext.complete, DataContext.retracted, DataContext.variableChangeCount, DataContext.ruleEntry, map[string]model.ValueNode
+
+//@ macro func active(re *RuleEntry) bool { return !re.Retracted && !re.Deleted }
+//@ extern pure func ctxErrRoot(ctx Ref) Ref
+//@ extern pure func err_root(e Ref) Ref
+//@ extern pure func err_mentions(e Ref, s string) bool
+//@ macro func wrapsCtx(err Ref, ctx Ref) bool { return err != nil && err_root(err) == ctxErrRoot(ctx) }
+
+// representation invariant of a knowledge base: every entry is filed under its own name
+//@ macro func KBInv(kb *KnowledgeBase) bool { return kb.RuleEntries != nil && (forall k string :: has(kb.RuleEntries, k) ==> kb.RuleEntries[k] != nil && kb.RuleEntries[k].RuleName == k) }
+// "as if just created": nothing remembered, nothing retracted
+//@ macro func memoClear(wm *WorkingMemory) bool { return (forall k string :: has(wm.expressionSnapshotMap, k) ==> !wm.expressionSnapshotMap[k].Evaluated)
+//@      && (forall k string :: has(wm.expressionAtomSnapshotMap, k) ==> !wm.expressionAtomSnapshotMap[k].Evaluated) }
+// every node filed in the working memory exists
+//@ macro func WMInv(wm *WorkingMemory) bool { return (forall k string :: has(wm.expressionSnapshotMap, k) ==> wm.expressionSnapshotMap[k] != nil)
+//@      && (forall k string :: has(wm.expressionAtomSnapshotMap, k) ==> wm.expressionAtomSnapshotMap[k] != nil) }
+//@ macro func noneRetracted(kb *KnowledgeBase) bool { return forall k string :: has(kb.RuleEntries, k) ==> !kb.RuleEntries[k].Retracted }
+
+// ---------------------------------------------------------------------------------------------------------
+// T-CTX: context.Context
+// ---------------------------------------------------------------------------------------------------------
+//@ extern func (c context.Context) Err() (r)
+//@   nopanic
+//@   modifies $cancelled
+//@   ensures old($cancelled) ==> $cancelled
+//@   ensures (r != nil) == $cancelled
+//@   ensures r != nil ==> err_root(r) == ctxErrRoot(c)
+//@   ghost_exit $ctxErrSeen = $ctxErrSeen || r != nil
+//@   ghost_exit $sinceNilCheck = ite(r == nil, 0, $sinceNilCheck)
+
+// ---------------------------------------------------------------------------------------------------------
+// IDataContext (interface contract; user implementations are trusted to refine it, *DataContext is checked)
+// ---------------------------------------------------------------------------------------------------------
+//@ extern func (d IDataContext) Add(key, obj) (err)
+//@   nopanic
+//@   ghost_exit $addFailed = err != nil
+//@ extern func (d IDataContext) SetRuleEntry(re) ()
+//@   nopanic
+//@ extern func (d IDataContext) IsComplete() (r)
+//@   nopanic
+//@   ensures r == $complete[d]
+//@ extern func (d IDataContext) Complete() ()
+//@   nopanic
+//@   ghost_exit $complete = store($complete, d, true)
+
+//@ func (ctx *DataContext) IsComplete() (r)
+//@   serves C10
+//@   ensures r == ctx.complete
+//@ func (ctx *DataContext) Complete() ()
+//@   serves C10
+//@   modifies DataContext.complete
+//@   ensures ctx.complete
+//@   ensures forall d *DataContext :: d != ctx ==> d.complete == old(d.complete)
+
+// ---------------------------------------------------------------------------------------------------------
+// WorkingMemory / KnowledgeBase: reset and retract
+// ---------------------------------------------------------------------------------------------------------
+//@ func (workingMem *WorkingMemory) ResetAll() (reseted)
+//@   serves C08 C01 C13
+//@   requires workingMem != nil && WMInv(workingMem)
+//@   nopanic
+//@   modifies Expression.Evaluated, ExpressionAtom.Evaluated
+//@   ensures memoClear(workingMem)
+//@   invariant@1 forall j int :: 0 <= j && j < $i ==> !workingMem.expressionSnapshotMap[$keys[j]].Evaluated
+//@   invariant@2 forall j int :: 0 <= j && j < $i ==> !workingMem.expressionAtomSnapshotMap[$keys[j]].Evaluated
+
+//@ func (e *KnowledgeBase) Reset() ()
+//@   serves C08 C10
+//@   requires e != nil && KBInv(e)
+//@   nopanic
+//@   modifies RuleEntry.Retracted
+//@   ensures noneRetracted(e)
+//@   invariant@1 forall j int :: 0 <= j && j < $i ==> !e.RuleEntries[$keys[j]].Retracted
+
+//@ func (e *KnowledgeBase) InitializeContext(dataCtx) ()
+//@   serves C08
+//@   requires e != nil
+//@   nopanic
+//@   modifies KnowledgeBase.DataContext
+//@   ensures e.DataContext == dataCtx
+
+// Retract(name): exactly the entries named `name` become retracted, nothing else changes (unknown name: no-op)
+//@ func (e *KnowledgeBase) RetractRule(ruleName) ()
+//@   serves C10
+//@   requires e != nil
+//@   modifies RuleEntry.Retracted
+//@   ensures forall k string :: has(e.RuleEntries, k) && e.RuleEntries[k] != nil ==> e.RuleEntries[k].Retracted == (old(e.RuleEntries[k].Retracted) || e.RuleEntries[k].RuleName == ruleName)
+//@   ensures forall re *RuleEntry :: old(re.Retracted) ==> re.Retracted
+//@   ensures forall re *RuleEntry :: re.RuleName != ruleName ==> re.Retracted == old(re.Retracted)
+//@   invariant@1 forall j int :: 0 <= j && j < $i && e.RuleEntries[$keys[j]] != nil ==> e.RuleEntries[$keys[j]].Retracted == (old(e.RuleEntries[$keys[j]].Retracted) || e.RuleEntries[$keys[j]].RuleName == ruleName)
+//@   invariant@1 forall re *RuleEntry :: old(re.Retracted) ==> re.Retracted
+//@   invariant@1 forall re *RuleEntry :: re.RuleName != ruleName ==> re.Retracted == old(re.Retracted)
+//@   invariant@1 forall re *RuleEntry :: re.Retracted ==> old(re.Retracted) || re.RuleName == ruleName
+
+// ---------------------------------------------------------------------------------------------------------
+// RuleEntry.Evaluate / Execute: the engine-facing contracts (C01, C10, C14, C15)
+// ---------------------------------------------------------------------------------------------------------
+// ASSUMED for now (extern = not yet checked against its body): evaluation writes memo fields only
+//@ extern func (e *Expression) Evaluate(dataContext, memory) (val, err)
+//@   modifies @memo
+//@ func (e *WhenScope) Evaluate(dataContext, memory) (val, err)
+//@   modifies @memo
+
+//@ func (e *RuleEntry) Evaluate(ctx, dataContext, memory) (can, err)
+//@   serves C01 C10 C14 C15
+//@   requires e != nil && ctx != nil
+//@   nopanic
+//@   modifies @memo, @ctxghost
+//@   ensures err != nil ==> !can
+//@   ensures old(e.Retracted) ==> !can
+//@   ensures err != nil ==> err_mentions(err, e.RuleName)
+//@   ensures old($cancelled) ==> err != nil && wrapsCtx(err, ctx)
+//@   ensures old($ctxErrSeen) ==> $ctxErrSeen
+//@   ensures $ctxErrSeen && !old($ctxErrSeen) ==> wrapsCtx(err, ctx)
+//@   ghost_exit $evalCnt = store($evalCnt, e, ite($evalStamp[e] == $stamp, $evalCnt[e] + 1, 1))
+//@   ghost_exit $evalStamp = store($evalStamp, e, $stamp)
+//@   ghost_exit $evalCand = store($evalCand, e, can)
+//@   ghost_exit $evalFailed = $evalFailed || err != nil
+//@   ghost_exit $sinceNilCheck = $sinceNilCheck + 1
+//@   ghost_exit $sinceExec = $sinceExec + 1
+
+// ASSUMED for now (extern): the action list writes only what actions may write; Retract/Complete are monotone
+//@ extern func (e *ThenExpressionList) Execute(dataContext, memory) (err)
+//@   modifies @actions
+//@   ensures forall re *RuleEntry :: old(re.Retracted) ==> re.Retracted
+//@   ensures forall d Ref :: old($complete[d]) ==> $complete[d]
+//@   panic_ensures forall re *RuleEntry :: old(re.Retracted) ==> re.Retracted
+//@   panic_ensures forall d Ref :: old($complete[d]) ==> $complete[d]
+//@ func (e *ThenScope) Execute(dataContext, memory) (err)
+//@   requires $sinceNilCheck == 0
+//@   modifies @actions
+//@   ensures forall re *RuleEntry :: old(re.Retracted) ==> re.Retracted
+//@   ensures forall d Ref :: old($complete[d]) ==> $complete[d]
+//@   panic_ensures forall re *RuleEntry :: old(re.Retracted) ==> re.Retracted
+//@   panic_ensures forall d Ref :: old($complete[d]) ==> $complete[d]
+
+//@ func (e *RuleEntry) Execute(ctx, dataContext, memory) (err)
+//@   serves C14 C15 C10
+//@   requires e != nil && ctx != nil
+//@   nopanic
+//@   modifies @actions, @ctxghost
+//@   ensures forall re *RuleEntry :: old(re.Retracted) ==> re.Retracted
+//@   ensures forall d Ref :: old($complete[d]) ==> $complete[d]
+//@   ensures old($cancelled) ==> err != nil && wrapsCtx(err, ctx)
+//@   ensures old($ctxErrSeen) ==> $ctxErrSeen
+//@   ensures $ctxErrSeen && !old($ctxErrSeen) ==> wrapsCtx(err, ctx)
+//@   ghost_entry $runExec = $runExec + 1
+//@   ghost_entry $execStamp = $stamp
+//@   ghost_exit $actionFailed = err != nil
+//@   ghost_exit $sinceExec = 0
